@@ -304,6 +304,30 @@ impl Api {
         }
         r
     }
+    /// the whole honest flow with in-memory state and the given reload plan (see Suite::flow_in_memory)
+    pub fn flow_in_memory(&self, t: &mut Tape, pw: &[u8], cid: &[u8], ctx: Ob, idu: Ob, ids: Ob, plan: &[Vec<Codec>; 6]) -> Result<FlowOut, (usize, E)> {
+        let ts = t.spec();
+        let mut out: Option<Result<FlowOut, (usize, E)>> = None;
+        let r = monitored("flow_in_memory", || {
+            out = Some(self.s.flow_in_memory(t, pw, cid, ctx, idu, ids, plan));
+            Ok(())
+        });
+        let res = match r {
+            Err(e) => Err((99, e)),
+            Ok(()) => out.unwrap(),
+        };
+        if self.rec_on() {
+            let plan_txt: Vec<String> = plan.iter().map(|c| format!("{:?}", c)).collect();
+            self.record(
+                "flow_in_memory",
+                Some(ts),
+                vec![Arg::B(pw.to_vec()), Arg::B(cid.to_vec()), ob(ctx), ob(idu), ob(ids), Arg::O(Some(hex::encode(plan_txt.join(";"))))],
+                res.clone().map(|o| hx(&[&o.setup, &o.req, &o.resp, &o.upload, &o.export_reg, &o.file, &o.ke1, &o.ke2, &o.ke3, &o.sk_client, &o.export_login, &o.sk_server, &o.fake_ke2, &o.fake_state])).map_err(|(_, e)| e),
+                vec![],
+            );
+        }
+        res
+    }
     /// native decode followed by native encode
     pub fn decode(&self, kind: Kind, bytes: &[u8]) -> R<Vec<u8>> {
         self.recode(kind, &Blob::n(bytes), Codec::Native).map(|b| b.bytes)
@@ -533,6 +557,29 @@ pub fn reexec(c: &CallRec) -> (Result<Vec<String>, E>, Vec<String>) {
             );
             log = l;
             h2(r)
+        }
+        "flow_in_memory" => {
+            let plan_txt = String::from_utf8(a_o(&a[5]).unwrap_or_default()).unwrap_or_default();
+            let mut plan: [Vec<Codec>; 6] = Default::default();
+            for (i, part) in plan_txt.split(';').enumerate().take(6) {
+                for c in ["Native", "Bincode", "Json"] {
+                    // order of appearance within the chain text
+                    let _ = c;
+                }
+                let mut chain = vec![];
+                for tok in part.trim_matches(|ch| ch == '[' || ch == ']').split(',') {
+                    match tok.trim() {
+                        "Native" => chain.push(Codec::Native),
+                        "Bincode" => chain.push(Codec::Bincode),
+                        "Json" => chain.push(Codec::Json),
+                        _ => {}
+                    }
+                }
+                plan[i] = chain;
+            }
+            api.flow_in_memory(&mut t, &a_b(&a[0]), &a_b(&a[1]), a_o(&a[2]).as_deref(), a_o(&a[3]).as_deref(), a_o(&a[4]).as_deref(), &plan)
+                .map(|o| hx(&[&o.setup, &o.req, &o.resp, &o.upload, &o.export_reg, &o.file, &o.ke1, &o.ke2, &o.ke3, &o.sk_client, &o.export_login, &o.sk_server, &o.fake_ke2, &o.fake_state]))
+                .map_err(|(_, e)| e)
         }
         "ksf_arm" => {
             api.ksf_arm(a_u(&a[0]).map(|x| x as usize));
